@@ -23,6 +23,8 @@ pub enum HOp {
     Analyze { file: String, text: String },
     /// run every query once on the long-lived index (fills the caches)
     Query,
+    /// ask for the fixtures available to these files, in this order (memoisation is order-sensitive)
+    Probe { files: Vec<String> },
     /// didOpen with the on-disk text followed by didClose
     OpenClose { file: String },
     /// didClose of a document whose buffer equals the disk text
@@ -126,7 +128,7 @@ impl Scenario for History {
             "C07" => rng.chance(700),
             _ => rng.chance(350),
         };
-        let spec = small_ws(&mut rng, imports);
+        let spec = if self.prop == "C07" && rng.chance(120) { super::ws::ring_ws(&mut rng) } else { small_ws(&mut rng, imports) };
         let names = names_pool(4);
         let files: Vec<String> = spec.files.iter().filter(|f| f.rel.ends_with(".py") && !f.rel.ends_with("__init__.py")).map(|f| f.rel.clone()).collect();
         let mut cur: BTreeMap<String, String> = spec.files.iter().map(|f| (f.rel.clone(), render(&f.items).text)).collect();
@@ -142,8 +144,15 @@ impl Scenario for History {
             let f = rng.pick(&files).clone();
             if self.prop == "C07" {
                 match rng.below(10) {
-                    0 | 1 | 2 => {
+                    0 | 1 => {
                         ops.push(HOp::Query);
+                        continue;
+                    }
+                    2 => {
+                        let mut fs = files.clone();
+                        rng.shuffle(&mut fs);
+                        fs.truncate(rng.range(1, fs.len()));
+                        ops.push(HOp::Probe { files: fs });
                         continue;
                     }
                     3 => {
@@ -173,7 +182,10 @@ impl Scenario for History {
             ops.push(HOp::Query);
         }
         let _ = disk;
-        let sim = SimParams { strategy: "random".into(), param: 0, workers: 1, ..SimParams::gen(&mut rng, 1000) };
+        let mut sim = SimParams { strategy: "random".into(), param: 0, workers: 1, ..SimParams::gen(&mut rng, 1000) };
+        // cache-pressure runs perform > 2000 analyses: the step budget is a liveness bound for the
+        // code under test, not for the workload size
+        sim.max_steps = if filled { 4_000_000_000 } else { 50_000_000 };
         serde_json::to_value(HistoryInput { spec, ops, sim, run_seed, sandbox: None }).unwrap()
     }
 
@@ -274,6 +286,13 @@ fn run_history(prop: &str, spec: &WsSpec, ops: &[HOp], root: &Path) -> HRes {
                 let _ = snapshot_opts(&live, root, false, true);
                 pending_query = true;
                 res.count("fault.cache_filling_query");
+            }
+            HOp::Probe { files } => {
+                for f in files {
+                    let _ = live.get_available_fixtures(&root.join(f));
+                }
+                pending_query = true;
+                res.count("fault.cache_filling_probe_in_generated_order");
             }
             HOp::OpenClose { file } => {
                 let Some(d) = disk.get(file) else { continue };
@@ -385,8 +404,21 @@ fn check_fresh_twin(res: &mut HRes, live: &Arc<FixtureDatabase>, log: &[(String,
     };
     let sa = filtered_snapshot(live, root, &unparsable);
     let sb = filtered_snapshot(&twin, root, &unparsable);
+    // names that currently-unparsable files provided through imports in their last valid version
+    let mut dropped_imports: std::collections::BTreeSet<String> = Default::default();
+    for p in &unparsable {
+        let mut visited = std::collections::HashSet::new();
+        dropped_imports.extend(twin.get_imported_fixtures(p, &mut visited));
+    }
     for (key, x, y) in sa.all_diffs(&sb) {
-        let class = if key.starts_with("available ") || key.starts_with("cycles ") { "RC-NO-INVALIDATE" } else { "history-answer-differs" };
+        let mentions_dropped = dropped_imports.iter().any(|n| x.contains(n.as_str()) || y.contains(n.as_str()) || key.contains(n.as_str()));
+        let class = if mentions_dropped {
+            "RC-UNPARSABLE-DROPS-IMPORTS"
+        } else if key.starts_with("available ") || key.starts_with("cycles ") {
+            "RC-NO-INVALIDATE"
+        } else {
+            "history-answer-differs"
+        };
         res.violate(class, format!("after step {}: `{}` answers {:?}, a fresh index answers {:?}", step, key, x, y));
     }
 }
@@ -453,12 +485,9 @@ fn check_cold_twin(res: &mut HRes, live: &Arc<FixtureDatabase>, log: &[(String, 
     for (f, t) in log {
         cold.analyze_file(root.join(f), t);
     }
-    let sa = {
-        let mut s = snapshot_opts(live, root, false, true);
-        s.entries.retain(|k, _| !k.contains("zz_fill/"));
-        s
-    };
-    let sb = snapshot_opts(&cold, root, false, true);
+    let files = super::dbsnap::files_in_cache(&cold);
+    let sa = super::observe::snapshot_files(live, root, &files, false, true);
+    let sb = super::observe::snapshot_files(&cold, root, &files, false, true);
     let has_import_cycle = {
         let m = super::model::Model::new(spec);
         spec.files.iter().any(|f| {
